@@ -782,6 +782,12 @@ class Explorer:
                 except Inconclusive:
                     raise
                 except Exception as e:  # the library's own exceptions are outcomes
+                    from .core import exception_origin
+
+                    if exception_origin(e) == "harness" and not isinstance(e, (AssertionError,)) and type(e).__name__ in ("RecursionError", "ArgumentError", "Z3Exception", "NameError", "AttributeError", "KeyError", "IndexError", "TypeError"):
+                        # raised by the harness's own code (innermost frame under /verif, no library frame): not an outcome of
+                        # the code under test
+                        raise
                     try:
                         r, sv = self._check([])
                         mdl = sv.model() if r == "sat" else None
@@ -922,6 +928,21 @@ class NpProxy:
     def isclose(self, a, b, rtol=1e-05, atol=1e-08, **kw):
         if self._anysym(a) or self._anysym(b):
             self.used.add("isclose")
+            np = self._np
+            if isinstance(a, (np.ndarray, list, tuple)) or isinstance(b, (np.ndarray, list, tuple)):
+                # elementwise: every entry's predicate is decided here (forked where both outcomes are feasible), so that the
+                # result is a real boolean array and can be used as a mask
+                A, B = self._obj(a) if not is_sym(a) else a, self._obj(b) if not is_sym(b) else b
+                A = A if isinstance(A, np.ndarray) else np.array(A, dtype=object)
+                B = B if isinstance(B, np.ndarray) else np.array(B, dtype=object)
+                shape = np.broadcast(A, B).shape
+                out = np.zeros(shape, dtype=bool)
+                for idx, x, y in zip(np.ndindex(shape), np.broadcast_to(A, shape).flat, np.broadcast_to(B, shape).flat):
+                    if is_sym(x) or is_sym(y):
+                        out[idx] = bool(isclose_sym(x, y, rtol, atol))
+                    else:
+                        out[idx] = bool(np.isclose(complex(x) if isinstance(x, complex) else x, complex(y) if isinstance(y, complex) else y, rtol=rtol, atol=atol))
+                return out
             return isclose_sym(a, b, rtol, atol)
         return self._np.isclose(a, b, rtol=rtol, atol=atol, **kw)
 
@@ -1097,6 +1118,81 @@ class complex_shadow(complex, metaclass=_ComplexShadowMeta):
         if len(a) == 2 and (is_sym(a[0]) or is_sym(a[1])):
             return CV(a[0], a[1])
         return complex(*a)
+
+
+def clear_common_den(e):
+    """e is a z3 real term built from + - * and divisions. If every division in e has the SAME denominator D and e is a sum
+    of terms each carrying at most one such division, return (c, D) with c == e * D as a division-free term (so that a claim
+    e == w/D can be decided as the polynomial identity c == w; z3's nonlinear solver does not clear hundreds of shared
+    denominators by itself). Returns None when e does not have that shape - callers then fall back to the plain claim."""
+    import sys
+
+    if sys.getrecursionlimit() < 50000:
+        sys.setrecursionlimit(50000)
+    # sums built by Python's sum() are left-nested (depth = number of terms); z3's simplifier flattens them to n-ary sums and
+    # keeps the divisions, so the traversals below stay shallow
+    e = z3.simplify(e, som=False)
+    dens = []
+    stack = [e]
+    while stack:
+        t = stack.pop()
+        if z3.is_app_of(t, z3.Z3_OP_DIV):
+            dens.append(t.arg(1))
+            stack.append(t.arg(0))
+        else:
+            stack.extend(t.children())
+    if not dens:
+        return None
+    D = dens[0]
+    if any(not d.eq(D) for d in dens[1:]):
+        return None
+
+    memo = {}
+
+    def has_div(t):
+        k = t.get_id()
+        if k not in memo:
+            memo[k] = True if z3.is_app_of(t, z3.Z3_OP_DIV) else any(has_div(c) for c in t.children())
+        return memo[k]
+
+    def times_d(t):
+        """t * D, division-free; None if t is not of the accepted shape"""
+        if not has_div(t):
+            return t * D
+        if z3.is_app_of(t, z3.Z3_OP_DIV):
+            return None if has_div(t.arg(0)) else t.arg(0)
+        if z3.is_add(t):
+            parts = [times_d(c) for c in t.children()]
+            return None if any(p is None for p in parts) else z3.Sum(parts)
+        if z3.is_app_of(t, z3.Z3_OP_SUB):
+            parts = [times_d(c) for c in t.children()]
+            if any(p is None for p in parts):
+                return None
+            out = parts[0]
+            for q in parts[1:]:
+                out = out - q
+            return out
+        if z3.is_app_of(t, z3.Z3_OP_UMINUS):
+            q = times_d(t.arg(0))
+            return None if q is None else -q
+        if z3.is_mul(t):
+            ch = t.children()
+            withdiv = [c for c in ch if has_div(c)]
+            if len(withdiv) != 1:
+                return None
+            q = times_d(withdiv[0])
+            if q is None:
+                return None
+            for c in ch:
+                if c is not withdiv[0]:
+                    q = q * c
+            return q
+        if z3.is_app_of(t, z3.Z3_OP_TO_REAL):
+            return None
+        return None
+
+    c = times_d(e)
+    return None if c is None else (c, D)
 
 
 def real_var(name):
